@@ -12,7 +12,7 @@ RULE = ('E1 enumeration of universe trees: depth 1-3, 2 or 3 cells per universe 
         'universe reused in two containers (same / different / one transformation), per-level '
         'transformation in {none, translation, 90deg about z, 30deg about z, 90deg about x} spelled by '
         'number / inline / inline-3 / starred / inline typed as .5 -.5 +1, container TRCL with and without a FILL transformation, '
-        'universe cells with their own TRCL, options default / --max-inline-score 0 / always-inline; '
+        'universe cells with their own TRCL, cards of a universe contiguous / interleaved with other universes / in reverse order, options default / --max-inline-score 0 / always-inline; '
         'oracle = reference locate() + provenance chain at one witness per cell of the joint plane '
         'arrangement (complete); non-trivial = at least two distinct provenance labels realised; '
         'distinct = distinct deck text + options')
@@ -190,6 +190,8 @@ def build(ch, with_options=True):
     for c in d.hcells:
         c.kw_order = kwo
     d.options = list(opts)
+    # the cards of one universe need not be contiguous, nor the level-0 cells come first
+    d.card_order = ch.choose('card-order', ['given', 'interleaved', 'reversed'])
     # cell 11 moved by a TRCL may overlap cell 10: the deck is then ill-formed; reject
     d.trcl11 = trcl11
     d.finish()
